@@ -28,7 +28,9 @@ type scriptedWriter struct {
 
 type writeFault struct{ call int }
 
-func (e *writeFault) Error() string { return fmt.Sprintf("verif: injected writer failure at call %d", e.call) }
+func (e *writeFault) Error() string {
+	return fmt.Sprintf("verif: injected writer failure at call %d", e.call)
+}
 
 func (w *scriptedWriter) write(p []byte) (int, error) {
 	if w.failedAt != 0 {
